@@ -457,6 +457,8 @@ def run(prog, ctx):
     res.rule("C05.Z", n_z, 0, "table / size field pairs")
     # floating-point items are canonicalised the way Java's doubleToLongBits does (C16.D, by value)
     C.import_rules(res, prog, ctx, "C05.R.f64", "C16", ("C16.D",), "the item a CPC sketch hashes for a double", 0, key_filter=lambda k: "f64|cpc::" in k)
+    # the hash every slot / row / bucket is derived from is the published one for every way of feeding it (C16 rules on the murmur state)
+    C.import_rules(res, prog, ctx, "C05.H", "C16", ("C16.B", "C16.C", "C16.T", "C16.K", "C16.W"), "MurmurHash3 the CPC row / column are derived from", 0, key_filter=lambda k: "urmur" in k)
     res.explanation = ("structural and formula rules over the %d functions reachable from CpcSketch::update; threshold formulas are evaluated on a grid of "
                        "lg_k 4..=26 x boundary/random coupon counts" % len(reach))
     res.not_decided = "equality of the reconstructed matrix with the model for all coupon streams"
